@@ -88,7 +88,12 @@ def run(tier, seed=0, shard=(0, 1)):
                     inp = '%s: permutation(%r, %r)' % (cname, list(perm), dom)
                     rep.case(inp, nontrivial=n > 1)
                     try:
-                        p = cls.permutation(list(perm), dom)
+                        arg = list(perm)
+                        p = cls.permutation(arg, dom)
+                        if arg != list(perm):
+                            # frame condition: the caller's list is an input, it must not be modified
+                            rep.fail('C10:perm.frame', 'permutation modified its argument: %r -> %r' % (list(perm), arg), inp)
+                            continue
                     except Exception as e:
                         rep.fail('C10:perm.raises', 'permutation raised %r' % (e,), inp)
                         continue
@@ -112,6 +117,22 @@ def run(tier, seed=0, shard=(0, 1)):
                         q = cls.id(dom).permute(*perm)
                         if q != p:
                             rep.fail('C10:permute', 'permute differs from permutation', inp)
+        # Tensor.swap itself (the array the tensor class interprets swaps by), blocks of unequal widths
+        if cname == 'tensor' and shard[0] == 0:
+            import numpy
+            from discopy.tensor import Tensor, Dim
+            for a, b in itertools.product([(), (2,), (3,), (2, 3), (2, 2, 3)], repeat=2):
+                A, B = Dim(*a), Dim(*b)
+                sw = Tensor.swap(A, B)
+                rep.case(('Tensor.swap', a, b), nontrivial=bool(a and b))
+                u = numpy.arange(1, 1 + int(numpy.prod(a or (1,)))).reshape(a or (1,)).astype(float)
+                v = numpy.arange(10, 10 + int(numpy.prod(b or (1,)))).reshape(b or (1,)).astype(float) ** 2
+                state = Tensor(Dim(1), A, u) @ Tensor(Dim(1), B, v)
+                want = Tensor(Dim(1), B, v) @ Tensor(Dim(1), A, u)
+                got = state >> sw
+                if (got.dom, got.cod) != (want.dom, want.cod) or not numpy.allclose(got.array, want.array):
+                    rep.fail('C10:Tensor.swap', 'Tensor.swap(%r, %r) does not move the left block past the right one' % (A, B),
+                             'tensor: Tensor.swap(%r, %r)' % (A, B))
         # refusals
         if shard[0] == 0:
             dom3 = mk(*[atoms[k % len(atoms)] for k in range(3)])
